@@ -262,6 +262,12 @@ func TestC20Trees(t *testing.T) {
 			dirs = append(dirs, d)
 			entries = append(entries, d)
 		}
+		// a file with the name of its own directory (equal names on different levels)
+		for _, d := range dirs[1:] {
+			if rapid.Bool().Draw(t, "echo") {
+				entries = append(entries, d+filepath.Base(strings.TrimSuffix(d, "/")))
+			}
+		}
 		nf := rapid.IntRange(1, 8).Draw(t, "nfiles")
 		seen := map[string]bool{}
 		for _, d := range dirs {
@@ -280,6 +286,9 @@ func TestC20Trees(t *testing.T) {
 		wildDir := false
 		for i := 0; i < depth; i++ {
 			s := genSegmentPattern(t, i < depth-1)
+			if i > 0 && rapid.IntRange(0, 3).Draw(t, "sameseg") == 0 && !(i == depth-1 && segs[i-1] == "*") {
+				s = segs[rapid.IntRange(0, i-1).Draw(t, "whichseg")] // the same text on two levels
+			}
 			if i < depth-1 && strings.Contains(s, "*") {
 				wildDir = true
 			}
